@@ -51,13 +51,15 @@ UeRecS(d) ==
   LET nzc == TablePick(SessL)
   IN [kind |-> "ue", fam |-> d.fam, size |-> SessL, u |-> SessU, nzc |-> nzc, ncs |-> d.ncs,
       den |-> DD(d), rden |-> RampDen(DD(d)), cover |-> d.cover, normalize |-> d.normalize,
+      flagform |-> FlagForms[1 + Pick(SessL + 5 * d.ncs + Len(d.cover), 7, 3)],
       norm2 |-> Norm2(d), e |-> ExtSeq(ZcSeq(nzc, SessU), SessL), ramp |-> Ramp(d.ncs, DD(d), SessL), key |-> d]
 NrxOf(v) == 1 + (v % 3)
 SessOv(d, o, v) == [has |-> TRUE, ct |-> d.ncs, cover |-> d.cover, normalize |-> d.normalize, asarray |-> o.arr,
                     mult |-> o.mult, u |-> SessU, kw |-> IF v % 4 = 1 THEN 2 ELSE IF v % 4 = 3 THEN 1 ELSE 0]
 SessScenario(d, o, v) == ScenarioX(EstFam(d), SessL, NrxOf(v), v, SessOv(d, o, v))
 EstRecS(d, o, v) == LET sc == SessScenario(d, o, v)
-                    IN [kind |-> "est", sc |-> sc, est |-> EstTaps(sc), scales |-> ObsScales, key |-> [d |-> d, o |-> o, v |-> v]]
+                    IN [kind |-> "est", sc |-> sc, est |-> EstTaps(sc), scales |-> ObsScales, flags |-> FlagFields(sc),
+                        key |-> [d |-> d, o |-> o, v |-> v]]
 
 (* -------------------------------------------------------------------- machine ------ *)
 SInit == /\ c = [kind |-> "init"] /\ rootDen = 1 /\ users = <<>> /\ ests = <<>> /\ phase = "run"
